@@ -99,7 +99,7 @@ func SameTokens(a, b string) bool {
 var neutralClasses = []string{
 	"ws.insert", "ws.insert", "ws.remove", "ws.remove", "adj.merge", "adj.merge",
 	"comment.line", "comment.line", "comment.block", "comment.block", "comment.block",
-	"ws.exotic", "eol", "paren", "paren", "paren", "comma", "comma", "comma", "rename",
+	"ws.exotic", "eol", "paren", "paren", "paren", "unparen", "unparen", "comma", "comma", "comma", "rename",
 }
 
 // Apply draws and applies count neutral edits to src.  It returns the final
@@ -164,6 +164,8 @@ func (n *Neutral) one(t *rapid.T, f *File, fam string) (string, EditDesc, bool) 
 		return n.eol(t, f)
 	case "paren":
 		return n.paren(t, f)
+	case "unparen":
+		return n.unparen(t, f)
 	case "comma":
 		return n.comma(t, f)
 	case "rename":
@@ -663,6 +665,111 @@ func (f *File) parenSites() []parenSite {
 	}
 	out = append(out, f.assocSites()...)
 	return out
+}
+
+// opFamily orders the binary operators whose chains are left-associative: * / % bind tighter than + -; each of
+// & ^ | && || only chains with itself (WGSL requires parentheses to mix them).  0: not handled.
+func opFamily(op string) int {
+	switch op {
+	case "*", "/", "%":
+		return 5
+	case "+", "-":
+		return 4
+	case "&":
+		return 31
+	case "^":
+		return 32
+	case "|":
+		return 33
+	case "&&":
+		return 21
+	case "||":
+		return 22
+	}
+	return 0
+}
+
+var exprStarts = map[string]bool{"(": true, ",": true, "=": true, "return": true, "[": true, "+=": true, "-=": true, "*=": true, "/=": true,
+	"%=": true, "&=": true, "|=": true, "^=": true, "if": true, "while": true}
+
+// unparen removes the parentheses of `(P op1 Q) op2 R` where the grammar groups the chain that way anyhow
+// (op1 binds at least as tightly as op2, which is left-associative, and nothing in front competes for P).
+func (n *Neutral) unparen(t *rapid.T, f *File) (string, EditDesc, bool) {
+	if !f.Structured || n.skipped("unparen.assoc") {
+		return "", EditDesc{}, false
+	}
+	var sites [][2]int
+	for i, tk := range f.Toks {
+		if tk.Kind != Punct || tk.Text != "(" || tk.Tmpl != 0 || f.Info[i].InAttr || !f.RValue(i) {
+			continue
+		}
+		j := f.Info[i].Match
+		if j <= i+3 || j+1 >= len(f.Toks) || f.Frozen[i] || f.Frozen[i+1] || f.Frozen[j] || f.Frozen[j+1] {
+			continue
+		}
+		if p := i - 1; p >= 0 && (f.Toks[p].Kind == Ident || f.Toks[p].Tmpl == -1 || f.text(p) == ")" || f.text(p) == "]") {
+			continue // a call, a constructor, an index base
+		}
+		// exactly one operator at the top level of the group, and it is a handled binary operator
+		op1, nops := "", 0
+		for k := i + 1; k < j; k++ {
+			if f.Info[k].Encl != i || f.Toks[k].Kind != Punct || f.Toks[k].Tmpl != 0 {
+				continue
+			}
+			switch f.Toks[k].Text {
+			case ".", "(", ")", "[", "]":
+				// member access, calls, nested groups and indexing belong to the operands
+			case ",":
+				nops += 2 // not a single expression
+			default:
+				if k == i+1 {
+					nops += 2 // leading unary operator: keep it simple
+				}
+				op1 = f.Toks[k].Text
+				nops++
+			}
+		}
+		f1 := opFamily(op1)
+		if nops != 1 || f1 == 0 {
+			continue
+		}
+		op2 := f.text(j + 1)
+		if f.Toks[j+1].Kind != Punct || f.Toks[j+1].Tmpl != 0 {
+			continue
+		}
+		switch f2 := opFamily(op2); {
+		case f1 == 5 && (f2 == 5 || f2 == 4):
+		case f1 == 4 && f2 == 4:
+		case f1 > 20 && f2 == f1:
+		default:
+			continue
+		}
+		prev := f.text(i - 1)
+		ok := exprStarts[prev] && (i < 1 || f.Toks[i-1].Tmpl == 0)
+		if !ok && (f1 == 5) && i >= 2 && f.Toks[i-1].Kind == Punct && f.Toks[i-1].Tmpl == 0 && opFamily(prev) == 4 {
+			if q := f.Toks[i-2]; q.Kind == Ident || q.Kind == IntLit || q.Kind == FloatLit || f.text(i-2) == ")" || f.text(i-2) == "]" {
+				ok = true // `w + (P * Q) * R`
+			}
+		}
+		if ok {
+			sites = append(sites, [2]int{i, j})
+		}
+	}
+	if len(sites) == 0 {
+		return "", EditDesc{}, false
+	}
+	st := sites[rapid.IntRange(0, len(sites)-1).Draw(t, "site")]
+	i, j := st[0], st[1]
+	out := f.Src[:f.Toks[i].Off] + " " + f.Src[f.Toks[i].End:f.Toks[j].Off] + " " + f.Src[f.Toks[j].End:]
+	old := sig(f.Toks)
+	want := make([]string, 0, len(old))
+	want = append(want, old[:i]...)
+	want = append(want, old[i+1:j]...)
+	want = append(want, old[j+1:]...)
+	if !verify(out, want) {
+		return "", EditDesc{}, false
+	}
+	return out, EditDesc{Class: "unparen.assoc", Tok: i, Off: f.Toks[i].Off, Arg: f.Src[f.Toks[i].Off:f.Toks[j].End], InExpr: true}, true
 }
 
 // assocSites finds `X op1 Y` at the head of a chain `X op1 Y op2 ...` that the grammar already groups as
